@@ -43,9 +43,12 @@ COMPONENTS = {
              "recorder task that crashes mid-write (torn tail)"],
 }
 ASSUMPTIONS = [
-    "a listing row is an output line that splits on column separators into >= 7 cells that are all integers (the seven "
-    "header values must appear in it in order; further integer columns such as a row number are tolerated) or all "
-    "ellipses; ANSI sequences are stripped and the rendering environment is pinned (COLUMNS=200, NO_COLOR)",
+    "a listing row is an output line whose tokens (box-drawing characters and ANSI sequences removed) are >= 7 integers "
+    "(the seven header values must appear among them in order; further integer columns are tolerated) or all ellipses; "
+    "the rendering environment is pinned (COLUMNS=200, NO_COLOR); header values must be printed as decimal integers",
+    "parse output is read by field name (SRC_SEQ_CTR / PKT_APID followed by the value), whatever the quoting; for parse "
+    "without an index only 'what is printed comes from the file, in order' is required; the out-of-range answer must be "
+    "some non-empty message that shows no packet (its wording is not judged)",
     "the XTCE definition given to 'parse' is the seven CCSDS header fields (committed as models/header_only.xml); every "
     "packet carries a unique SRC_SEQ_CTR (except in the repeated-packet files, where some or all packets are byte-identical "
     "and rows are attributable by position only) so 'shows that packet' means exactly that counter and no other appears",
@@ -71,8 +74,8 @@ from click.testing import CliRunner  # noqa: E402
 from space_packet_parser import cli as _cli  # noqa: E402
 
 _SEP = re.compile("[│┃|]")
-_CTR = re.compile(r"'SRC_SEQ_CTR':\s*(\d+)")
-_APID = re.compile(r"'PKT_APID':\s*(\d+)")
+_CTR = re.compile(r"SRC_SEQ_CTR\W{1,4}(\d+)")          # 'SRC_SEQ_CTR': 5   "SRC_SEQ_CTR": 5   SRC_SEQ_CTR = 5   SRC_SEQ_CTR | 5
+_APID = re.compile(r"PKT_APID\W{1,4}(\d+)")
 _OOR = re.compile(r"out[ -]of[ -](range|bounds)|invalid (packet )?index|no such packet", re.I)
 
 
@@ -89,18 +92,19 @@ def systematic():
 _ANSI = re.compile(r"\x1b\[[0-9;?]*[A-Za-z]")
 
 
+_BOX = re.compile("[\u2500-\u257f|]")        # box-drawing characters and the ASCII bar
+
+
 def parse_rows(text):
-    """Data rows of the listing: table lines whose cells are all integers (>= 7 of them: the seven header fields, in
-    order, possibly among further integer columns such as a row number) or all ellipses."""
+    """Data rows of the listing, however the table is drawn (any box style or none): lines whose tokens - after removing
+    ANSI sequences and box-drawing characters - are all integers (>= 7 of them: the seven header fields, in order,
+    possibly among further integer columns such as a row number) or all ellipses."""
     rows = []
     for line in _ANSI.sub("", text).splitlines():
-        if not _SEP.search(line):
-            continue
-        cells = [c.strip() for c in _SEP.split(line)]
-        cells = [c for c in cells if c != ""]
+        cells = _BOX.sub(" ", line).split()
         if len(cells) < 7:
             continue
-        if all(c in ("...", "…") for c in cells):
+        if all(c in ("...", "\u2026") for c in cells):
             rows.append("...")
         elif all(re.fullmatch(r"-?\d+", c) for c in cells):
             rows.append(tuple(int(c) for c in cells))
@@ -313,11 +317,12 @@ def run(ch, render=False):
             ctrs = [int(x) for x in _CTR.findall(text)]
             exp_ctrs = [factory.header_tuple(p)[5] for p in exp_pkts]
             if index is None:
-                # whole list, rich truncates after --max-items (20) entries
-                shown = exp_ctrs[:20]
-                if ctrs != shown:
-                    out.fail("wrong_packets_shown", f"parse without an index printed counters {ctrs[:25]}, expected "
-                                                    f"{shown[:25]} ({desc})", "parse_all|wrong")
+                # the statement says nothing about parse without an index beyond "no traceback, terminates"; how many
+                # packets are printed (--max-items) is a display choice. What is printed must come from the file, in order.
+                it = iter(exp_ctrs)
+                if not all(any(x == c for c in it) for x in ctrs):
+                    out.fail("wrong_packets_shown", f"parse without an index printed counters {ctrs[:25]}, which is not an "
+                                                    f"in-order selection of the file's {exp_ctrs[:25]} ({desc})", "parse_all|wrong")
             elif -m <= index < 0:
                 # a negative index inside the Python range: the statement does not say whether it counts from the end or
                 # is out of range; either answer is accepted (no traceback was already required above)
@@ -337,9 +342,11 @@ def run(ch, render=False):
                 if ctrs:
                     out.fail("packet_shown_for_bad_index", f"--packet {index} with {m} packets printed counters {ctrs[:12]} "
                                                            f"({desc})", "parse|shown_for_bad_index")
+                elif not text_all.strip():
+                    out.fail("no_out_of_range_message", f"--packet {index} with {m} packets printed nothing at all: an "
+                                                        f"out-of-range message is required ({desc})", "parse|no_message")
                 elif not _OOR.search(text_all):
-                    out.fail("no_out_of_range_message", f"--packet {index} with {m} packets printed no out-of-range "
-                                                        f"message: {text_all[-160:]!r} ({desc})", "parse|no_message")
+                    w.probe("out_of_range_message_unrecognised_wording")      # some message was printed: wording is not judged
 
     out.log = w.log
     out.faults = w.faults
